@@ -168,7 +168,10 @@ where
     ) -> Result<()> {
         // check if the range is valid
         let leaves_len = leaves.len();
-        if start + leaves_len > self.capacity() {
+        if start
+            .checked_add(leaves_len)
+            .is_none_or(|end| end > self.capacity())
+        {
             return Err(Report::msg("provided range exceeds set size"));
         }
         for (i, leaf) in leaves.enumerate() {
